@@ -41,7 +41,8 @@ def join_orders(n):
     ids = list(range(n))
     if n <= 4:
         return [list(p) for p in itertools.permutations(ids)]
-    out = [ids[r:] + ids[:r] for r in range(n)]
+    step = 1 if n <= 12 else 2          # n = 24, 40: every second rotation (budget)
+    out = [ids[r:] + ids[:r] for r in range(0, n, step)]
     out.append(ids[::-1])
     return out
 
@@ -983,16 +984,15 @@ def dfs_scope(tier):
                 for h in (HASH_NAMES if order == [0, 1, 2] else ('far',)):
                     add(3, order, 0.0, ann, h, 1, 'full')
         for order in join_orders(4):
-            for ann in (range(4) if order == [0, 1, 2, 3] else (3,)):
-                add(4, order, 0.0, ann, 'far', 1, 'full', parts=2)
+            add(4, order, 0.0, 3, 'far', 1, 'full', parts=2)
         for order in join_orders(2):
             add(2, order, 0.0, 1, 'far', 2, 'full', parts=4)
-        for ann in (0, 2):
-            add(3, [0, 1, 2], 0.0, ann, 'far', 2, 'quiescent', parts=8)
+        add(3, [0, 1, 2], 0.0, 2, 'far', 2, 'quiescent', parts=8)
         add(4, [0, 1, 2, 3], 0.0, 3, 'far', 2, 'quiescent', parts=32)
-        for n in (5, 8, 9):
-            for ann in (0, n - 1):
-                add(n, list(range(n)), 0.0, ann, 'far', 1, 'quiescent', parts=4)
+        for ann in (0, 4):
+            add(5, list(range(5)), 0.0, ann, 'far', 1, 'quiescent', parts=2)
+        for n in (8, 9):
+            add(n, list(range(n)), 0.0, n - 1, 'far', 1, 'quiescent', parts=4)
     return out
 
 
@@ -1034,29 +1034,43 @@ def run(ctx):
     items.sort(key=lambda it: -estimate(it))
     ctx.pmap(dispatch, items)
     quick = ctx.quick
+    scope = dfs_scope(ctx.tier)
     ctx.meta.update(
-        rule=('hit: every (n, join order, start stagger, announcer, blob hash) on the default FIFO schedule + every '
-              'choice sequence within the deviation bound (early/non-oldest delivery, duplication, timer before pending '
-              'datagrams but never past their RPC timeout) on the announce+lookup phases of the listed small cases + '
-              'expiry probes at 24h-1s/24h/24h+1s; paging: every N=1..100; term: every subset of non-searcher nodes '
-              'marked with each fault kind (and all mixed assignments for n=3 in thorough) x 5 lookups, + loss/late '
-              'deviations. Non-trivial/distinct = distinct (case, observed delivery sequence digest).'),
+        rule=('hit: every (n, join order, start stagger 0/3 s, announcer, blob hash in {next to announcer id, next to '
+              'bootstrap id, far from all ids}) on the default FIFO schedule; every choice sequence within the deviation '
+              'bound (early / non-oldest delivery, duplication, a timer overtaking pending datagrams but never an RPC '
+              'timeout) over the announce+lookup phases of the cases listed in bounds.deviation_cases; expiry probes at '
+              '24h-1s, 24h, 24h+1s after an unbroken 24 h of periodic traffic; paging: every N = 1..100; term: for every '
+              'fault kind every subset of the non-searcher nodes (n=3: also one node answering with each single invalid '
+              'peer address; thorough n=3: every mixed assignment) x 5 lookups (3 node, 2 value), plus loss / over-timeout '
+              'delay of each datagram as deviations. Distinct non-trivial = distinct (case, digest of the observed delivery '
+              'sequence); states = distinct (case, choice prefix) nodes.'),
         exhaustive=True,
         bounds={'hit_n': [2, 3, 4, 5, 8] if quick else [2, 3, 4, 5, 8, 9, 12, 24, 40],
-                'deviation_scope': [{k: d[k] for k in ('n', 'order', 'ann', 'hash', 'bound', 'alphabet')}
-                                    for d in dfs_scope(ctx.tier)][:6] + ['... see checks/c12.py dfs_scope()'],
+                'join_orders': 'all permutations n<=4; all rotations + reversed n<=12; every 2nd rotation + reversed n=24,40',
+                'announcers': 'all (n<=5) else {0, 1, n-1}', 'hashes': list(HASH_NAMES),
+                'deviation_cases': sorted({(d['n'], d['bound'], d['alphabet'],
+                                           sum(1 for e in scope if (e['n'], e['bound'], e['alphabet']) ==
+                                               (d['n'], d['bound'], d['alphabet']))) for d in scope}),
+                'deviation_cases_format': '(n, bound, alphabet, number of (order, announcer, hash) cases); see dfs_scope()',
+                'expiry_n': [2, 3, 4] if quick else [2, 3, 4, 5, 8, 9, 12],
                 'paging_counts': '1..100', 'term_n': [3, 4, 5, 6], 'fault_kinds': list(FAULT_KINDS),
+                'single_invalid_values': ['%s:%d' % bv for bv in BAD_VALUES],
+                'term_loss_scope': 'quick: n=3 bound 1; thorough: n=3 bound 2 (honest/silent/garbage) + bound 1 (all '
+                                   'kinds), n=4 bound 1 (light kinds)',
                 'step_horizon': {'hit': HIT_STEPS, 'term': TERM_STEPS}, 'join_virtual_seconds': '>= 4600'},
         bound_completed={'hit_deviation_bound': 1 if quick else 2, 'term_loss_bound': 1 if quick else 2},
         assumptions=[
             'n nodes share one process: lbry.dht.peer.make_kademlia_peer is a module-level lru_cache, so KademliaPeer '
             'objects (and the tcp_port a store RPC sets on them) are shared between nodes, as in upstream tests',
-            'hit half: no datagram is held past the RPC timeout of the request it belongs to (A.6)',
+            'hit half: exploration never delays a datagram or stalls the loop long enough for an RPC to time out (A.6: '
+            'that is loss); shorter delays across the 0.1 s / 1 s periodic timers are explored',
             'join phase runs on the default schedule; closest-K is judged only when routing tables were unchanged over '
             'a 600 s window after >= 4000 virtual s',
             'an exception escaping datagram_received is logged by the loop and the transport stays open (what CPython '
             '3.12 selector datagram transports do)',
             'os.urandom / random used by lbry.dht are replaced by deterministic streams keyed by VERIF_SEED',
+            'a lookup "finishes" when its async iterator is exhausted or raises; faulty nodes are marked after the join',
         ],
         expected_witnesses=['announce_stored', 'stored_on_exactly_k_closest', 'deviation_changed_delivery_order',
                             'deviation_dup', 'deviation_timer', 'paging_needed_more_than_one_request',
